@@ -72,6 +72,9 @@ Verdict15(r) ==
       \o If(r.small /\ r.encOk /\ AllSimple(r.pipe) => PipeEncodes(r.pipe, r.orig, r.enc), "pipeline-vs-reference")
 
 (* ------------------------------------------------------------------------------ C16 *)
+(* api "SDH": the call is a later call of a history on one StreamDict object (r.prev = the earlier  *)
+(* calls).  The outcome relation is that of a call on a fresh object: decoding has no memory, apart *)
+(* from what the relation allows anyway (a bounded call after a full decode returns the same prefix).*)
 Verdict16(r) ==
   LET o == Outcome(r.kind, IF r.kind = "ok" THEN r.len ELSE 0)
       prefix == r.kind = "ok" => (Len(r.got) = r.len /\ PrefixOf(r.got, r.full))
@@ -80,7 +83,7 @@ Verdict16(r) ==
       \o (IF r.mode = "limit"
           THEN If(o = PipeLimitOutcome(r.ds, r.arg), "limit-outcome")
                \o If(r.kind = "ok" => (r.len = r.D /\ Within(r.len, r.arg)), "limit-length")
-          ELSE IF r.api = "SD"
+          ELSE IF r.api \in {"SD", "SDH"}
                THEN If(o \in BoundedOutcome(r.D, r.arg), "bounded-outcome")
                ELSE If(o \in BoundedAtLeast(r.D, r.arg), "bounded-outcome"))
 
